@@ -100,7 +100,7 @@ ScalarNext ==
     \/ \E a \in SReg :
          \/ SStep("s.neg", d, a, "", 0, SNeg(s[a]))
          \/ InvOK(s[a]) /\ SStep("s.inv", d, a, "", 0, SInv(s[a]))
-         \/ a # d /\ SStep("s.set", d, a, "", 0, s[a])
+         \/ SStep("s.set", d, a, "", 0, s[a])               \* incl. x.Set(x)
          \/ a # d /\ SStep("s.clone", d, a, "", 0, s[a])
     \/ SStep("s.zero", d, "", "", 0, SZero)
     \/ SStep("s.one", d, "", "", 0, SOne)
@@ -115,7 +115,7 @@ PointNext ==
          \/ PStep("p.sub", d, a, b, 0, PSub(p[a], p[b]))
     \/ \E a \in PSrc :
          \/ PStep("p.neg", d, a, "", 0, PNeg(p[a]))
-         \/ a # d /\ PStep("p.set", d, a, "", 0, p[a])
+         \/ PStep("p.set", d, a, "", 0, p[a])               \* incl. P.Set(P)
          \/ a # d /\ PStep("p.clone", d, a, "", 0, p[a])
     \/ \E k \in SReg :
          \/ \E a \in PSrc : PMulOK(s[k], p[a]) /\ PStep("p.mul", d, k, a, 0, PMul(s[k], p[a]))
